@@ -12,7 +12,7 @@ import warnings
 
 import z3
 
-from vlib import run, symsim
+from vlib import run, symsim, refstmt
 from vlib.run import PROVED, VIOLATION, INCONCLUSIVE, ERROR, UNREPRODUCED
 from vlib.gen import stmts as S
 from vlib.pysym import (explore, bool_term, eval_in_model, is_sym, timed_check, sym_not, sym_ite, sym_and, sym_or,
@@ -105,12 +105,43 @@ class Core:
             out.append((("rdata",), "rdata"))
         return out
 
+    def never_assigned(self):
+        """{register name: mask of the bits no statement of D assigns}.  Such bits never leave their initial value, neither in D nor
+        under any wrapper (the inserters only add assignments of initial values), so states in which they hold anything else are
+        unreachable and are excluded from the symbolic pre-state (an invariant, re-established by every step).  Example: a register whose
+        only assignment is a zero-width part select."""
+        drv = refstmt.StmtOracle(self.prog).driven
+        out = {}
+        for n, v in self.prog["signals"].items():
+            if v[3] == "sync" and v[0]:
+                miss = ((1 << v[0]) - 1) & ~drv.get(n, 0)
+                if miss:
+                    out[n] = miss
+        return out
+
     def signal(self, name):
         if name == "child_reg":
             return self.child_reg
         if name == "child_rl":
             return self.child_rl
         return self.sigs[name]
+
+
+def pin_never_assigned(sim, core):
+    """Excludes the unreachable pre-states of Core.never_assigned from the symbolic state of a simulator containing the core."""
+    for n, miss in core.never_assigned().items():
+        sg = core.signal(n)
+        w = len(sg)
+        u = (to_u(sim.value(sg), w) & ~miss) | (sg.init & miss & ((1 << w) - 1))
+        sim.poke(sg, sym_ite((u >> (w - 1)) & 1 != 0, u - (1 << w), u) if sg.shape().signed else u)
+
+
+def pinned_value(core, sg, v):
+    """The same on a concrete value v (unsigned bit pattern) of signal object sg."""
+    for n, miss in core.never_assigned().items():
+        if core.signal(n) is sg:
+            return (v & ((1 << len(sg)) - 1) & ~miss) | (sg.init & miss & ((1 << len(sg)) - 1))
+    return v
 
 
 def namer(key):
@@ -154,6 +185,7 @@ class Run:
                 return "v_rst"
             return namer(key)
         sim.sym_state("v", namer=nm, clocks=[(self.cd.clk, 1 - clk_to)])
+        pin_never_assigned(sim, self.core)
         if self.cd.rst is not None and rst_value is not None:
             sim.poke(self.cd.rst, rst_value)
         sim.settle()
@@ -316,6 +348,7 @@ def concrete_law(job, vals):
                     if s is cd.clk or s is cd.rst or not len(s):
                         continue
                     v = val("v_" + name)
+                    v = pinned_value(core, s, v)
                     if s.shape().signed and v >= (1 << (len(s) - 1)):
                         v -= 1 << len(s)
                     try:
@@ -460,6 +493,8 @@ def edge_obligation(job):
         def scen():
             sim.reset()
             sim.sym_state("v", namer=namer_multi(cores), clocks=[(t[1].clk, (oldv >> j) & 1) for j, t in enumerate(toggles) if t[0] == "clk"])
+            for c in cores:
+                pin_never_assigned(sim, c)
             for j, t in enumerate(toggles):
                 if t[0] == "rst":
                     sim.poke(t[1].rst, (oldv >> j) & 1)
@@ -610,6 +645,8 @@ def concrete_edge(job, vals, oldv, newv, tdesc):
                 if any(s is cd.clk or s is cd.rst for cd in cds) or not len(s):
                     continue
                 v = val("v_" + s.name)
+                for c in cores:
+                    v = pinned_value(c, s, v)
                 if s.shape().signed and v >= (1 << (len(s) - 1)):
                     v -= 1 << len(s)
                 try:
